@@ -12,15 +12,20 @@ import (
 	"cosmossdk.io/store/prefix"
 	sdk "github.com/cosmos/cosmos-sdk/types"
 	authtypes "github.com/cosmos/cosmos-sdk/x/auth/types"
+	banktypes "github.com/cosmos/cosmos-sdk/x/bank/types"
 	distrtypes "github.com/cosmos/cosmos-sdk/x/distribution/types"
+	stakingtypes "github.com/cosmos/cosmos-sdk/x/staking/types"
 	"github.com/cosmos/gogoproto/proto"
 
 	"github.com/osmosis-labs/osmosis/osmomath"
 	"github.com/osmosis-labs/osmosis/v31/app"
+	clmodel "github.com/osmosis-labs/osmosis/v31/x/concentrated-liquidity/model"
+	cltypes "github.com/osmosis-labs/osmosis/v31/x/concentrated-liquidity/types"
 	"github.com/osmosis-labs/osmosis/v31/x/gamm/pool-models/balancer"
 	inctypes "github.com/osmosis-labs/osmosis/v31/x/incentives/types"
 	lockuptypes "github.com/osmosis-labs/osmosis/v31/x/lockup/types"
 	pitypes "github.com/osmosis-labs/osmosis/v31/x/pool-incentives/types"
+	pmtypes "github.com/osmosis-labs/osmosis/v31/x/poolmanager/types"
 	protorevtypes "github.com/osmosis-labs/osmosis/v31/x/protorev/types"
 	txfeestypes "github.com/osmosis-labs/osmosis/v31/x/txfees/types"
 
@@ -102,10 +107,19 @@ type Config struct {
 	PoolUosmo int64  `json:"r1_pool_uosmo"`     // reserves of the r1 route pool
 	PoolR1    int64  `json:"r1_pool_r1"`        //
 	R2Pool    int64  `json:"r2_pool_each_side"` // the r2 route pool is 1:1
+	// CL: the world additionally has a concentrated-liquidity pool uosmo/rwd1 (one full-range position of P) and a
+	// second balancer pool uosmo/rwd1 that is only there to be swapped on (pool volume); the symbols clgauge,
+	// swap, group, kgroup and alloc need it. The two route pools are never swapped on, so the valuation
+	// thresholds stay what they are in the plain worlds.
+	CL bool `json:"cl,omitempty"`
 }
 
 func (c Config) String() string {
-	return fmt.Sprintf("%s(min=%duosmo r1pool=%d:%d r2pool=%d:%d)", c.Name, c.MinValue, c.PoolUosmo, c.PoolR1, c.R2Pool, c.R2Pool)
+	cl := ""
+	if c.CL {
+		cl = " +clpool +volpool"
+	}
+	return fmt.Sprintf("%s(min=%duosmo r1pool=%d:%d r2pool=%d:%d%s)", c.Name, c.MinValue, c.PoolUosmo, c.PoolR1, c.R2Pool, c.R2Pool, cl)
 }
 
 // The coins alphabet of gauge creation and top-ups.
@@ -114,6 +128,7 @@ var GaugeCoins = []Amt{
 	{0, 777, 0},   // 1
 	{500, 300, 0}, // 2
 	{400, 0, 500}, // 3 (seed S4 only: r2)
+	{1000, 2, 0},  // 4 (NoLock alphabets: a second denom of which there is less than one unit per epoch when n = 3)
 }
 var AddCoins = []Amt{
 	{200, 0, 0}, // 0
@@ -122,7 +137,7 @@ var AddCoins = []Amt{
 
 // Op is one symbol of the alphabet. All operands are literal or indexes into the ledger (creation order).
 type Op struct {
-	K    string `json:"k"`              // gauge add lock unlock punlock setrr epoch tick
+	K    string `json:"k"`              // gauge add lock unlock punlock setrr epoch tick | CL worlds: clgauge swap group kgroup alloc
 	A    string `json:"a,omitempty"`    // acting account (gauge, add, lock)
 	Perp bool   `json:"perp,omitempty"` // gauge
 	Dur  int64  `json:"dur,omitempty"`  // gauge / lock duration (ns)
@@ -133,6 +148,7 @@ type Op struct {
 	L    int    `json:"l,omitempty"`    // unlock / punlock / setrr: lock index in the ledger
 	Amt  int64  `json:"amt,omitempty"`  // lock / punlock amount
 	To   string `json:"to,omitempty"`   // setrr: account name
+	P    int    `json:"p,omitempty"`    // swap: 0 = the concentrated pool, 1 = the volume (balancer) pool
 }
 
 func (o Op) String() string {
@@ -149,6 +165,16 @@ func (o Op) String() string {
 		return fmt.Sprintf("punlock{l#%d %d}", o.L, o.Amt)
 	case "setrr":
 		return fmt.Sprintf("setrr{l#%d -> %s}", o.L, o.To)
+	case "clgauge":
+		return fmt.Sprintf("clgauge{%s perp=%v nolock->clpool %s fut=%v n=%d}", o.A, o.Perp, GaugeCoins[o.C], o.Fut, o.N)
+	case "swap":
+		return fmt.Sprintf("swap{P %duosmo in on %s}", o.Amt, []string{"clpool", "volpool"}[o.P])
+	case "group":
+		return fmt.Sprintf("group{%s perpetual %s pools=clpool,volpool}", o.A, GaugeCoins[o.C])
+	case "kgroup":
+		return fmt.Sprintf("kgroup{keeper-level CreateGroup %s n=%d %s pools=clpool,volpool}", o.A, o.N, GaugeCoins[o.C])
+	case "alloc":
+		return fmt.Sprintf("alloc{keeper-level: %duosmo into pool-incentives, AllocateAsset}", o.Amt)
 	}
 	return o.K
 }
@@ -178,6 +204,29 @@ type Gauge struct {
 	Paid   int    // epochs in which it actually paid a positive amount
 	Early  bool   // observed in the finished index with Filled < N (only possible after an empty epoch)
 	Fut    bool   // created with a start time in the future
+
+	// CL worlds only (zero values = a lock-based gauge on lptok created by a ledger symbol)
+	Kind     int    // KLock, KNoLock, KGroup
+	LockDen  string // KLock: the lock denom when it is not lptok (the internal gauge of the volume pool)
+	Internal bool   // created by pool creation, not by a symbol of the history
+	Gone     bool   // KGroup: the record was deleted when the (non-perpetual) group finished
+}
+
+const (
+	KLock   = 0
+	KNoLock = 1 // pays the concentrated pool's incentive address
+	KGroup  = 2 // pays its member gauges (no lifecycle index)
+)
+
+var kindName = []string{"lock", "nolock", "group"}
+
+// Group is the ledger's record of one group: which ledger gauges are its members and, for the OBSERVED
+// (not judged) split, the weights = pool volume since the last successful weight sync.
+type Group struct {
+	G       int // index of the group gauge in Ledger.Gauges
+	Members []int
+	Pools   []uint64
+	W, Snap []int64
 }
 
 func (g Gauge) Remaining() Amt { return g.Coins.Sub(g.Dist) }
@@ -204,6 +253,7 @@ func (l Lock) Receiver() string {
 type Ledger struct {
 	Gauges  []Gauge
 	Locks   []Lock
+	Groups  []Group
 	Epochs  int   // distribution epochs observed so far
 	NoR2    bool  // the r2 route has been removed (seed S4's keeper-level step)
 	Fees    int64 // fees the ledger expects to have gone to the community pool
@@ -215,6 +265,14 @@ func (l *Ledger) Clone() *Ledger {
 	n := *l
 	n.Gauges = append([]Gauge{}, l.Gauges...)
 	n.Locks = append([]Lock{}, l.Locks...)
+	if len(l.Groups) > 0 {
+		n.Groups = make([]Group, len(l.Groups))
+		for i, g := range l.Groups {
+			g.W = append([]int64{}, g.W...)
+			g.Snap = append([]int64{}, g.Snap...)
+			n.Groups[i] = g
+		}
+	}
 	return &n
 }
 
@@ -235,6 +293,9 @@ func (l *Ledger) Key() []byte {
 		}
 		if g.Early {
 			put(1)
+		}
+		if g.Gone {
+			put(2)
 		}
 	}
 	h.Write([]byte("|"))
@@ -267,9 +328,28 @@ type World struct {
 	// documented valuation defines it (what MinValueForDistribution buys in the route pool at zero
 	// spread; 0 when it buys less than one unit, i.e. every positive amount is worth more).
 	Min [3]int64
+
+	// CL worlds
+	CLPool, VolPool         uint64
+	CLIncAddr, PIAddr       sdk.AccAddress
+	CLInternal, VolInternal uint64    // ids of the internal gauges that pool creation made (group members)
+	PoolsAt                 time.Time // block time at which the pools (and their internal gauges) were created
+	Tracked                 []string  // accounts whose balance deltas are compared with the reference at every block
+}
+
+// ClInc names the concentrated pool's incentive address in the tracked-account tables.
+const ClInc = "clpool-incentives"
+
+func (w *World) addr(name string) sdk.AccAddress {
+	if name == ClInc {
+		return w.CLIncAddr
+	}
+	return core.Acc(name)
 }
 
 var stores = []string{"incentives", "lockup", "bank", "acc", "epochs", "distribution", "protorev", "gamm", "poolincentives", "poolmanager"}
+
+var storesCL = append(append([]string{}, stores...), "concentratedliquidity")
 
 var Accounts = []string{"A", "B", "R"}
 
@@ -294,10 +374,28 @@ func NewWorld(cfg Config, r *core.Result) *World {
 			a.AppCodec().MustUnmarshalJSON(gs[txfeestypes.ModuleName], &tg)
 			tg.Basedenom = Uosmo
 			gs[txfeestypes.ModuleName] = a.AppCodec().MustMarshalJSON(&tg)
+			if cfg.CL {
+				// Pool volume (what groups split by) is tracked in the staking bond denom. On the real chain that is uosmo;
+				// the shared deterministic genesis bonds "stake". Re-denominate the genesis bond for CL worlds.
+				var sg stakingtypes.GenesisState
+				a.AppCodec().MustUnmarshalJSON(gs[stakingtypes.ModuleName], &sg)
+				old := sg.Params.BondDenom
+				sg.Params.BondDenom = Uosmo
+				gs[stakingtypes.ModuleName] = a.AppCodec().MustMarshalJSON(&sg)
+				var bg banktypes.GenesisState
+				a.AppCodec().MustUnmarshalJSON(gs[banktypes.ModuleName], &bg)
+				for i, b := range bg.Balances {
+					if amt := b.Coins.AmountOf(old); amt.IsPositive() {
+						bg.Balances[i].Coins = b.Coins.Sub(sdk.NewCoin(old, amt)).Add(sdk.NewCoin(Uosmo, amt))
+					}
+				}
+				bg.Supply = nil // recomputed from the balances
+				gs[banktypes.ModuleName] = a.AppCodec().MustMarshalJSON(&bg)
+			}
 		},
 	})
 	a, ctx := env.App, env.Ctx
-	w := &World{Env: env, App: a, Cfg: cfg, R: r}
+	w := &World{Env: env, App: a, Cfg: cfg, R: r, Tracked: Accounts}
 	w.IncAddr = authtypes.NewModuleAddress(inctypes.ModuleName)
 	w.LockAddr = authtypes.NewModuleAddress(lockuptypes.ModuleName)
 	w.DistrAddr = authtypes.NewModuleAddress(distrtypes.ModuleName)
@@ -323,6 +421,58 @@ func NewWorld(cfg Config, r *core.Result) *World {
 	}
 	p1 := mkPool(sdk.NewCoin(Uosmo, sdkmath.NewInt(cfg.PoolUosmo)), sdk.NewCoin(R1, sdkmath.NewInt(cfg.PoolR1)))
 	p2 := mkPool(sdk.NewCoin(Uosmo, sdkmath.NewInt(cfg.R2Pool)), sdk.NewCoin(R2, sdkmath.NewInt(cfg.R2Pool)))
+	if cfg.CL {
+		// Created BEFORE the protorev registration below is made explicit, so that the valuation of rwd1 keeps going
+		// through the route pool p1 whatever protorev thinks of the new pools.
+		cp := cltypes.DefaultParams()
+		cp.IsPermissionlessPoolCreationEnabled = true
+		a.ConcentratedLiquidityKeeper.SetParams(ctx, cp)
+		if len(cp.AuthorizedUptimes) != 1 || cp.AuthorizedUptimes[0] != time.Nanosecond {
+			panic("harness: default authorized uptimes changed")
+		}
+		cm := clmodel.NewMsgCreateConcentratedPool(core.Acc("P"), R1, Uosmo, 100, osmomath.ZeroDec())
+		res := core.Deliver(a, ctx, &cm)
+		if !res.OK() {
+			panic(fmt.Sprintf("harness: concentrated pool creation failed: %v", res.Err))
+		}
+		var cresp clmodel.MsgCreateConcentratedPoolResponse
+		mustUnmarshal(res.Res, &cresp)
+		w.CLPool = cresp.PoolID
+		w.VolPool = mkPool(sdk.NewCoin(Uosmo, sdkmath.NewInt(50000000)), sdk.NewCoin(R1, sdkmath.NewInt(150000000)))
+		pos := &cltypes.MsgCreatePosition{PoolId: w.CLPool, Sender: core.Acc("P").String(), LowerTick: cltypes.MinInitializedTick, UpperTick: cltypes.MaxTick,
+			TokensProvided: core.Coins(Uosmo, 50000000, R1, 150000000), TokenMinAmount0: sdkmath.ZeroInt(), TokenMinAmount1: sdkmath.ZeroInt()}
+		if res := core.Deliver(a, ctx, pos); !res.OK() {
+			panic(fmt.Sprintf("harness: position creation failed: %v", res.Err))
+		}
+		pool, err := a.ConcentratedLiquidityKeeper.GetConcentratedPoolById(ctx, w.CLPool)
+		if err != nil {
+			panic(err)
+		}
+		w.CLIncAddr = pool.GetIncentivesAddress()
+		w.PIAddr = authtypes.NewModuleAddress(pitypes.ModuleName)
+		w.PoolsAt = ctx.BlockTime()
+		if w.CLInternal, err = a.PoolIncentivesKeeper.GetInternalGaugeIDForPool(ctx, w.CLPool); err != nil {
+			panic(err)
+		}
+		if w.VolInternal, err = a.PoolIncentivesKeeper.GetInternalGaugeIDForPool(ctx, w.VolPool); err != nil {
+			panic(err)
+		}
+		// what pool-incentives hands out (the share of the mint provisions on the real chain; here funded by the
+		// keeper-level symbol `alloc`): 3 parts to the concentrated pool's internal gauge, 1 part to the volume
+		// pool's, 1 part to the community pool. Governance-only state, set through the proposal handler's keeper method.
+		if err := a.PoolIncentivesKeeper.ReplaceDistrRecords(ctx,
+			pitypes.DistrRecord{GaugeId: 0, Weight: sdkmath.NewInt(1)},
+			pitypes.DistrRecord{GaugeId: w.CLInternal, Weight: sdkmath.NewInt(3)},
+			pitypes.DistrRecord{GaugeId: w.VolInternal, Weight: sdkmath.NewInt(1)}); err != nil {
+			panic(err)
+		}
+		// the denom pool-incentives hands out is uosmo, as on the real chain (the default genesis says "stake")
+		a.PoolIncentivesKeeper.SetParams(ctx, pitypes.Params{MintedDenom: Uosmo})
+		if md := a.PoolIncentivesKeeper.GetParams(ctx).MintedDenom; md != Uosmo {
+			panic("harness: pool-incentives minted denom is " + md)
+		}
+		w.Tracked = append(append([]string{}, Accounts...), ClInc)
+	}
 	// The module values a reward denom through the pool protorev has registered for (uosmo, denom).
 	// protorev registers pools of its base denoms when they are created; make the registration explicit
 	// (same setter) so the scenario does not depend on protorev's genesis.
@@ -368,7 +518,28 @@ func NewWorld(cfg Config, r *core.Result) *World {
 	if ep := a.EpochsKeeper.GetEpochInfo(next, EpochID); !ep.EpochCountingStarted || ep.CurrentEpoch != 1 {
 		panic("harness: epoch counting did not start")
 	}
+	if cfg.CL {
+		if got, err := a.ProtoRevKeeper.GetPoolForDenomPairNoOrder(next, Uosmo, R1); err != nil || got != p1 {
+			panic("harness: rwd1 is not valued through the route pool")
+		}
+		if bd, err := a.StakingKeeper.BondDenom(next); err != nil || bd != Uosmo {
+			panic("harness: bond denom (the denom pool volume is tracked in) is " + bd)
+		}
+	}
 	return w
+}
+
+// NewLedger is the reference ledger of the base state: empty, except that in CL worlds it knows the two internal
+// gauges that pool creation made and that groups pay into (perpetual, start = their pool's creation time).
+func (w *World) NewLedger() *Ledger {
+	l := &Ledger{}
+	if w.Cfg.CL {
+		l.Gauges = append(l.Gauges,
+			Gauge{ID: w.CLInternal, Perp: true, Dur: EpochDur, Start: w.PoolsAt, N: 1, Kind: KNoLock, Internal: true},
+			Gauge{ID: w.VolInternal, Perp: true, Dur: Durations[len(Durations)-1], Start: w.PoolsAt, N: 1, Kind: KLock,
+				LockDen: fmt.Sprintf("gamm/pool/%d", w.VolPool), Internal: true})
+	}
+	return l
 }
 
 func mustUnmarshal(res *sdk.Result, m proto.Message) {
@@ -445,7 +616,7 @@ func (w *World) Apply(ctx sdk.Context, l *Ledger, op Op, fail func(a, s, d strin
 	a := w.App
 	l.Steps++
 	switch op.K {
-	case "gauge":
+	case "gauge", "clgauge":
 		owner := core.Acc(op.A)
 		start := ctx.BlockTime()
 		if op.Fut {
@@ -455,6 +626,13 @@ func (w *World) Apply(ctx sdk.Context, l *Ledger, op Op, fail func(a, s, d strin
 		msg := &inctypes.MsgCreateGauge{IsPerpetual: op.Perp, Owner: owner.String(),
 			DistributeTo: lockuptypes.QueryCondition{LockQueryType: lockuptypes.ByDuration, Denom: LP, Duration: time.Duration(op.Dur)},
 			Coins:        coins.Coins(), StartTime: start, NumEpochsPaidOver: op.N}
+		kind, dur := KLock, time.Duration(op.Dur)
+		if op.K == "clgauge" {
+			// an external incentive gauge of the concentrated pool: no lock condition, the duration field is the uptime
+			kind, dur = KNoLock, time.Nanosecond
+			msg.DistributeTo = lockuptypes.QueryCondition{LockQueryType: lockuptypes.NoLock, Duration: dur}
+			msg.PoolId = w.CLPool
+		}
 		b0, m0, d0, cp0 := w.bal(ctx, owner), w.bal(ctx, w.IncAddr), w.bal(ctx, w.DistrAddr), w.communityPool(ctx)
 		last0 := a.IncentivesKeeper.GetLastGaugeID(ctx)
 		r := core.Deliver(a, ctx, msg)
@@ -471,7 +649,7 @@ func (w *World) Apply(ctx sdk.Context, l *Ledger, op Op, fail func(a, s, d strin
 		fee := inctypes.CreateGaugeFee.Int64()
 		w.checkFunding(ctx, "gauge.create", owner, coins, fee, b0, m0, d0, cp0, fail)
 		l.Fees += fee
-		l.Gauges = append(l.Gauges, Gauge{ID: id, Perp: op.Perp, Dur: time.Duration(op.Dur), Start: start, N: op.N, Coins: coins, Status: StUpcoming, Fut: op.Fut})
+		l.Gauges = append(l.Gauges, Gauge{ID: id, Perp: op.Perp, Dur: dur, Start: start, N: op.N, Coins: coins, Status: StUpcoming, Fut: op.Fut, Kind: kind})
 	case "add":
 		if op.G >= len(l.Gauges) {
 			return ctx, "rejected:no-such-gauge"
@@ -560,6 +738,109 @@ func (w *World) Apply(ctx sdk.Context, l *Ledger, op Op, fail func(a, s, d strin
 		}
 	case "rmr2":
 		w.RemoveR2Route(ctx, l)
+	case "swap":
+		// environment only: generates pool volume (what groups split by). P swaps uosmo for rwd1.
+		msg := &pmtypes.MsgSwapExactAmountIn{Sender: core.Acc("P").String(), TokenIn: sdk.NewCoin(Uosmo, sdkmath.NewInt(op.Amt)), TokenOutMinAmount: sdkmath.OneInt(),
+			Routes: []pmtypes.SwapAmountInRoute{{PoolId: []uint64{w.CLPool, w.VolPool}[op.P], TokenOutDenom: R1}}}
+		m0 := w.bal(ctx, w.IncAddr)
+		r := core.Deliver(a, ctx, msg)
+		if !r.OK() {
+			return ctx, errClass(r.Err)
+		}
+		if w.bal(ctx, w.IncAddr) != m0 {
+			fail("schedule.no-payment-outside-epoch-end", "", "a swap moved the incentives module balance")
+		}
+	case "group", "kgroup":
+		owner := core.Acc(op.A)
+		coins := GaugeCoins[op.C]
+		pools := []uint64{w.CLPool, w.VolPool}
+		b0, m0, d0, cp0 := w.bal(ctx, owner), w.bal(ctx, w.IncAddr), w.bal(ctx, w.DistrAddr), w.communityPool(ctx)
+		last0 := a.IncentivesKeeper.GetLastGaugeID(ctx)
+		var id uint64
+		if op.K == "group" {
+			msg := &inctypes.MsgCreateGroup{Coins: coins.Coins(), NumEpochsPaidOver: 0, Owner: owner.String(), PoolIds: pools}
+			r := core.Deliver(a, ctx, msg)
+			if !r.OK() {
+				if w.bal(ctx, owner) != b0 || w.bal(ctx, w.IncAddr) != m0 {
+					fail("reject.no-effect", "", "rejected group creation moved funds")
+				}
+				return ctx, errClass(r.Err)
+			}
+			var resp inctypes.MsgCreateGroupResponse
+			mustUnmarshal(r.Res, &resp)
+			id = resp.GroupId
+		} else {
+			// keeper-level: MsgCreateGroup.ValidateBasic refuses n != 0 ("non-perpetual group creation is disabled"), the
+			// keeper method the message server calls does not. All-or-nothing like a message.
+			child, write := ctx.CacheContext()
+			var err error
+			perr := core.Try(func() error {
+				id, err = a.IncentivesKeeper.CreateGroup(child, coins.Coins(), op.N, owner, pools)
+				return err
+			})
+			if perr != nil {
+				return ctx, errClass(perr)
+			}
+			write()
+		}
+		if id != last0+1 || a.IncentivesKeeper.GetLastGaugeID(ctx) != id {
+			fail("gauge.create-issues-next-id", "", fmt.Sprintf("last id %d, group gauge id %d", last0, id))
+		}
+		fee := a.IncentivesKeeper.GetParams(ctx).GroupCreationFee.AmountOf(Uosmo).Int64()
+		// the group creation fee is sent to the distribution module account; whether it is booked to the community
+		// pool is observed, not judged (the statement does not speak about fees)
+		b1, m1, d1, cp1 := w.bal(ctx, owner), w.bal(ctx, w.IncAddr), w.bal(ctx, w.DistrAddr), w.communityPool(ctx)
+		if want := b0.Sub(coins).Sub(Amt{fee, 0, 0}); b1 != want {
+			fail("group.create.sender-pays-coins-plus-fee", "", fmt.Sprintf("sender balance %s -> %s, expected %s (coins %s + fee %duosmo)", b0, b1, want, coins, fee))
+		}
+		if m1 != m0.Add(coins) {
+			fail("group.create.module-receives-coins", "", fmt.Sprintf("incentives module balance %s -> %s, expected +%s", m0, m1, coins))
+		}
+		if d1 != d0.Add(Amt{fee, 0, 0}) {
+			fail("group.create.fee-leaves-to-distribution-account", "", fmt.Sprintf("distribution account %s -> %s, expected +%duosmo", d0, d1, fee))
+		}
+		if cp1 == cp0+fee {
+			w.R.Vacuity["obs_group_fee_booked_to_community_pool"]++
+		} else {
+			w.R.Vacuity["obs_group_fee_in_distribution_account_but_not_booked_to_community_pool"]++
+		}
+		g := Gauge{ID: id, Perp: op.K == "group", Start: ctx.BlockTime(), N: op.N, Coins: coins, Status: StActive, Kind: KGroup}
+		if g.Perp {
+			g.N = 1
+		}
+		gr := Group{G: len(l.Gauges), Pools: pools}
+		for _, mid := range []uint64{w.CLInternal, w.VolInternal} {
+			gr.Members = append(gr.Members, l.gaugeIndex(mid))
+		}
+		for _, pid := range pools {
+			v := a.PoolManagerKeeper.GetOsmoVolumeForPool(ctx, pid).Int64()
+			gr.W = append(gr.W, v)
+			gr.Snap = append(gr.Snap, v)
+		}
+		l.Gauges = append(l.Gauges, g)
+		l.Groups = append(l.Groups, gr)
+		w.R.Vacuity["group_created"]++
+	case "alloc":
+		// keeper-level: what the mint hook does each mint epoch, with harness-funded coins instead of minted ones.
+		// pool-incentives hands its whole balance of the minted denom out according to the distribution records.
+		child, write := ctx.CacheContext()
+		if err := a.BankKeeper.SendCoinsFromAccountToModule(child, core.Acc("P"), pitypes.ModuleName, sdk.NewCoins(sdk.NewCoin(Uosmo, sdkmath.NewInt(op.Amt)))); err != nil {
+			panic(err)
+		}
+		m0, p0 := w.bal(child, w.IncAddr), w.bal(child, w.PIAddr)
+		if err := core.Try(func() error { return a.PoolIncentivesKeeper.AllocateAsset(child) }); err != nil {
+			return ctx, errClass(err)
+		}
+		write()
+		// records of the base state: 1 part community pool, 3 parts concentrated internal gauge, 1 part volume-pool internal gauge
+		toCL, toVol := floorMulDiv(p0[0], 3, 5, 1), floorMulDiv(p0[0], 1, 5, 1)
+		ci, vi := l.gaugeIndex(w.CLInternal), l.gaugeIndex(w.VolInternal)
+		l.Gauges[ci].Coins = l.Gauges[ci].Coins.Add(Amt{toCL, 0, 0})
+		l.Gauges[vi].Coins = l.Gauges[vi].Coins.Add(Amt{toVol, 0, 0})
+		if m1 := w.bal(ctx, w.IncAddr); m1 != m0.Add(Amt{toCL + toVol, 0, 0}) {
+			fail("alloc.module-receives-what-the-gauges-are-credited", "", fmt.Sprintf("incentives module balance %s -> %s, expected +%duosmo", m0, m1, toCL+toVol))
+		}
+		w.R.Vacuity["internal_gauges_topped_up_by_pool_incentives"]++
 	case "epoch", "tick":
 		dt := TickStep
 		if op.K == "epoch" {
@@ -588,6 +869,26 @@ func (w *World) checkFunding(ctx sdk.Context, what string, owner sdk.AccAddress,
 	}
 }
 
+func (l *Ledger) gaugeIndex(id uint64) int {
+	for i := range l.Gauges {
+		if l.Gauges[i].ID == id {
+			return i
+		}
+	}
+	panic(fmt.Sprintf("harness: gauge %d is not in the ledger", id))
+}
+
+// userGauges counts the gauges created by symbols of the history (not the internal ones of the base state).
+func (l *Ledger) userGauges() int {
+	n := 0
+	for _, g := range l.Gauges {
+		if !g.Internal {
+			n++
+		}
+	}
+	return n
+}
+
 func (l *Ledger) findLock(id uint64) int {
 	for i := range l.Locks {
 		if l.Locks[i].ID == id {
@@ -607,6 +908,14 @@ type Alphabet struct {
 	Partial   int64
 	Back      bool // setrr back to the owner
 	Tick      bool
+
+	// CL worlds
+	CLGauges   []Op `json:",omitempty"` // NoLock gauge creations (count towards MaxGauges)
+	Swaps      []Op `json:",omitempty"`
+	Groups     []Op `json:",omitempty"`
+	MaxGroups  int  `json:",omitempty"`
+	Allocs     []Op `json:",omitempty"`
+	NoLockMgmt bool `json:",omitempty"` // do not offer unlock / punlock / setrr
 }
 
 func (w *World) Enabled(al *Alphabet) func(ctx sdk.Context, l *Ledger, depth int) []Op {
@@ -619,10 +928,19 @@ func (w *World) Enabled(al *Alphabet) func(ctx sdk.Context, l *Ledger, depth int
 		if len(l.Locks) < al.MaxLocks {
 			ops = append(ops, al.Locks...)
 		}
-		if len(l.Gauges) < al.MaxGauges {
+		if l.userGauges()-len(l.Groups) < al.MaxGauges {
+			ops = append(ops, al.CLGauges...)
 			ops = append(ops, al.Gauges...)
 		}
+		ops = append(ops, al.Swaps...)
+		if len(l.Groups) < al.MaxGroups {
+			ops = append(ops, al.Groups...)
+		}
+		ops = append(ops, al.Allocs...)
 		for i, k := range l.Locks {
+			if al.NoLockMgmt {
+				break
+			}
 			if !k.Unlocking() {
 				ops = append(ops, Op{K: "unlock", L: i})
 				if al.Partial > 0 && k.Amt > al.Partial {
@@ -636,8 +954,9 @@ func (w *World) Enabled(al *Alphabet) func(ctx sdk.Context, l *Ledger, depth int
 			}
 		}
 		for i, g := range l.Gauges {
-			if g.Status == StFinished && !g.Early {
+			if g.Status == StFinished && !g.Early || g.Internal && g.Kind == KLock {
 				// a top-up of a finished gauge is refused; offered once per state to see the refusal
+				// (the volume pool's internal gauge has no lock to pay: one top-up symbol is enough)
 				ops = append(ops, Op{K: "add", A: al.Adds[0].A, G: i, C: al.Adds[0].C})
 				continue
 			}
